@@ -188,7 +188,7 @@ func TestVerifC13(t *testing.T) {
 	defer res.Guard()
 	base, _ := vrep.Scratch("c13")
 	slog.SetDefault(slog.New(slog.NewTextHandler(io.Discard, nil)))
-	res.Rule = "E3: subsets (size 0-3, thorough 0-4) of a pool of 6 report contents placed on 3 days with X from {0.5, 0.05, 5e-05, 0.25} (incl. the same X on two days, text-vs-number sort differences), encoded line sizes {natural, 65535, 65536, 65537, 100000 bytes}, all date ranges over 5 days incl. never-merged days; the real handleMerge/handleChart on file-system buckets vs a reference grouping; output compared under permutation of X; classes = (reports, range, size class) shapes"
+	res.Rule = "E3: subsets (size 0-3, thorough 0-4) of a pool of 6 report contents placed on 3 days with X from {0.5, 0.05, 5e-05, 0.25} (incl. the same X on two days, text-vs-number sort differences), encoded line sizes {natural, 65535, 65536, 65537, 100000 bytes}, all date ranges over 5 days incl. never-merged days; the real handleMerge/handleChart on file-system buckets vs a reference grouping; output compared under permutation of X; classes = (reports, range, size class) shapes; plus the missing-day clause over the Cloud Storage backend against a local stand-in for the service"
 	res.Assumptions = []string{"Go map iteration order inside the handlers is not seamed: each case is run twice and must be byte-identical", "file-system backend only"}
 	if p.Replay != "" {
 		fmt.Println("C13 replay: cases are deterministic; re-run the quick check")
